@@ -244,12 +244,13 @@ CLAIMS = {
         text="The model's validity predicates are the grammar productions generated from the source (char_data, comment, cdsect, pi, "
              "att_value, qname) — the ones the library validates with. Kernel-checked: closed forms of what the translated productions accept for a "
              "Text node (all Chars but '<' '&', no ']]>'), a CDATA section (all Chars, no ']]>') and a comment (= production [15] of the "
-             "Recommendation as a recogniser, = all Chars, no '--', no '-' at the end; by induction over the fuel-driven many0 loop), "
+             "Recommendation as a recogniser, = all Chars, no '--', no '-' at the end; by induction over the fuel-driven many0 loop), a PI target (a Name that is not xml in "
+             "any letter case) and PI data (all Chars, no '?>'), "
              "every data edit that succeeds stored data that passed the predicate for the node's kind evaluated "
              "on the OUTCOME of the edit (so sequences arising from combining harmless pieces are refused), a refused edit changes "
              "nothing. Monitor after every step: to_string() is accepted by from_raw with nothing left and its dump equals the DOM's "
              "own dump. Tie: status and dump vs the model.",
-        note="Partial proof: closed forms for PI and attribute-value validity and preservation of a global 'printable' invariant "
+        note="Partial proof: the closed form of attribute-value validity and preservation of a global 'printable' invariant "
              "by every operation are not yet proved (tie + monitor cover them). Known finding factory-panic.",
         technique="Lean 4 proof (partial; grammar-derived validity predicates) + re-parse monitor after every successful call + differential correspondence",
         ref="DESIGN.md section 6 C15"),
